@@ -8,8 +8,8 @@
     them the bounds form of the property is proved below. *)
 From Coq Require Import List ZArith.
 From Garr Require Import Conc.Conc Conc.Lin Pure.F64 Adder.StripedModel Adder.SimpleModel Adder.AdderSpec.
-From Garr Require Import Adder.SimpleMutex Adder.SimpleAtomic.
-From Garr Require Import Breaker.ConcBase Adder.StripedInv Adder.StripedRead Adder.StripedC09.
+From Garr Require Import Adder.SimpleMutex Adder.SimpleAtomic Adder.SimpleRC.
+From Garr Require Import Breaker.ConcBase Adder.StripedInv Adder.StripedRead Adder.StripedC09 Adder.StripedNoFault Adder.StripedC09b Adder.SimpleRCSum.
 Import ListNotations.
 Local Open Scope Z_scope.
 
@@ -34,9 +34,9 @@ Print Assumptions C09_mutex_adder.
     i.e. it contains every update that had taken effect (a fortiori: had
     returned) before it was invoked, nothing that takes effect after it
     returned, no update twice or in part beyond those bounds; successive Sums
-    never decrease and never exceed the true total.  ([no_dead]: no thread has
-    faulted up to that step - absence of faults of the striped machine under
-    concurrency is not proved and is a hypothesis here.)  The exact
+    never decrease and never exceed the true total.  (The versions below carry
+    a hypothesis [no_dead]; [C09_jdk_sum_bounds_nofault] removes it, using the
+    proof that no thread of the striped machine ever faults.)  The exact
     "set of whole updates" form for updates of mixed sign is NOT proved; it is
     checked per history on the real code by the subset-sum monitor. *)
 Theorem C09_jdk_sum_bounds : forall f64 maxcells rnd progs sched i j t ci cj thi thj pr cj' ej r,
@@ -61,3 +61,43 @@ Theorem C09_jdk_f64_sum_bounds : forall f64 maxcells rnd progs sched i j t ci cj
 Proof. exact sum_bounds_log_exact. Qed.
 Print Assumptions C09_jdk_sum_bounds.
 Print Assumptions C09_jdk_f64_sum_bounds.
+
+(** the same without any fault hypothesis: no thread of the striped machine ever
+    faults, for all programs, schedules, probe streams and table limits *)
+Theorem C09_jdk_no_fault : forall vadd f64 maxcells rnd progs sched th,
+  In th (c_thr (final (striped vadd f64 maxcells) (init apc (ainit rnd) tt progs) sched)) -> t_dead th = false.
+Proof. intros vadd f64 maxcells. exact (striped_no_fault vadd f64 maxcells). Qed.
+Theorem C09_jdk_sum_bounds_nofault : forall f64 maxcells rnd progs sched i j t ci cj thi thj pr cj' ej r,
+  reader_progs progs -> total progs < 2 ^ 62 ->
+  let log := steps_of (striped wadd f64 maxcells) (init apc (ainit rnd) tt progs) sched in
+  nth_error log i = Some (ci, t) -> nth_error log j = Some (cj, t) -> (i < j)%nat ->
+  nth_error (c_thr ci) t = Some thi -> t_cur thi = None -> t_prog thi = Sum :: pr ->
+  nth_error (c_thr cj) t = Some thj -> t_prog thj = pr ->
+  step_thread (striped wadd f64 maxcells) cj t = Some (cj', ej) -> In (ERet t Sum (RZ r)) ej ->
+  applied (c_sh ci) <= r <= applied (c_sh cj') /\ applied (c_sh cj') <= total progs.
+Proof. exact sum_bounds_log'. Qed.
+Theorem C09_jdk_f64_sum_bounds_nofault : forall f64 maxcells rnd progs sched i j t ci cj thi thj pr cj' ej r,
+  reader_progs progs ->
+  let log := steps_of (striped Z.add f64 maxcells) (init apc (ainit rnd) tt progs) sched in
+  nth_error log i = Some (ci, t) -> nth_error log j = Some (cj, t) -> (i < j)%nat ->
+  nth_error (c_thr ci) t = Some thi -> t_cur thi = None -> t_prog thi = Sum :: pr ->
+  nth_error (c_thr cj) t = Some thj -> t_prog thj = pr ->
+  step_thread (striped Z.add f64 maxcells) cj t = Some (cj', ej) -> In (ERet t Sum (RZ r)) ej ->
+  applied (c_sh ci) <= r <= applied (c_sh cj') /\ applied (c_sh cj') <= total progs.
+Proof. exact sum_bounds_log_exact'. Qed.
+
+(** RandomCellAdder (any number n > 0 of cells): the same bounds - every cell is
+    read exactly once and cells only grow *)
+Theorem C09_random_cell_sum_bounds : forall n rnd progs sched i j t ci cj thi thj pr cj' ej r,
+  (0 < n)%nat -> rc_reader_progs progs -> total progs < 2 ^ 63 ->
+  let log := steps_of rc_adder (init rpc (rinit n rnd) tt progs) sched in
+  nth_error log i = Some (ci, t) -> nth_error log j = Some (cj, t) -> (i < j)%nat ->
+  nth_error (c_thr ci) t = Some thi -> t_cur thi = None -> t_prog thi = Sum :: pr ->
+  nth_error (c_thr cj) t = Some thj -> t_prog thj = pr ->
+  step_thread rc_adder cj t = Some (cj', ej) -> In (ERet t Sum (RZ r)) ej ->
+  SimpleRC.zsum (rc_cells (c_sh ci)) <= r <= SimpleRC.zsum (rc_cells (c_sh cj')) /\
+  SimpleRC.zsum (rc_cells (c_sh cj')) <= total progs.
+Proof. exact rc_sum_bounds_log. Qed.
+Print Assumptions C09_jdk_no_fault.
+Print Assumptions C09_jdk_sum_bounds_nofault.
+Print Assumptions C09_random_cell_sum_bounds.
